@@ -470,6 +470,13 @@ def main(pid, tier=None, replay=None):
     seed = int(os.environ.get('VERIF_SEED', '0') or 0)
     setup_import_path()
     ctx = Ctx(pid, tier, seed)
+    _generated_snapshot = {}
+    if str(REPO) != '/repo':
+        for path in (LEAN / 'AbacusVerif' / 'Generated').glob('*.lean'):
+            try:
+                _generated_snapshot[path] = path.read_text()
+            except OSError:
+                pass
     try:
         mod = importlib.import_module('props.%s' % pid.lower())
         ctx.theorems = list(getattr(mod, 'THEOREMS'))
@@ -585,6 +592,16 @@ def main(pid, tier=None, replay=None):
     finally:
         ctx.cleanup()
         if str(REPO) != '/repo':
-            # a scratch tree regenerated lean/AbacusVerif/Generated from ITS source: put the committed files back
-            subprocess.run(['git', '-C', str(VERIF), 'checkout', '-q', '--', 'lean/AbacusVerif/Generated'],
-                           stdout=subprocess.DEVNULL, stderr=subprocess.DEVNULL)
+            # a scratch tree regenerated some lean/AbacusVerif/Generated files from ITS source: put back exactly the
+            # files THIS run changed, with the content they had before the run (other properties' files, possibly
+            # being regenerated by concurrently running checks, are left alone)
+            for path, before in _generated_snapshot.items():
+                try:
+                    now = path.read_text() if path.exists() else None
+                    if now != before:
+                        if before is None:
+                            path.unlink()
+                        else:
+                            path.write_text(before)
+                except OSError:
+                    pass
